@@ -1,3 +1,416 @@
--- placeholder: native driver of property C18 (see checks/README.md)
-def main (_ : List String) : IO UInt32 := do
-  IO.eprintln "drv_c18: not built yet"; return 2
+import GlmVerif.Hand.C18
+/-!
+Native driver of property C18 (Mathlib-free).
+
+  drv_c18 check <file>     the file holds the B- and L-lines written by diff/C18.cpp (see there):
+      B-line: re-enumerate the sweep block with the hand MODEL, fold the same 64-bit hash, compare with glm's hash;
+              every model result of the block is also checked against the executable SPECIFICATION (when the hashes
+              agree these are glm's results)
+      L-line: compare the model with glm's result; check GLM'S result against the specification
+  output: `MISMATCH …`, `SPECFAIL …` (first few per op/class), `CLASS op class count`, `OPSTAT …`, `SUMMARY …`
+
+The definitions evaluated here are the ones the theorems of Props/C18 are about.
+-/
+open GlmVerif.C18
+
+namespace DrvC18
+
+def FNV0 : UInt64 := 0xcbf29ce484222325
+def FNVP : UInt64 := 0x100000001b3
+
+/-! ## op codes -/
+def opNames : Array String := #[
+  "ispow2", "ceilpow2", "nextpow2", "floorpow2", "prevpow2", "roundpow2", "hbv", "lbv", "above", "below", "nearest", "mask", "log2", "fact",   -- 0..13
+  "ceilmul", "nextmul", "floormul", "prevmul", "roundmul", "ismul", "findnsb", "rotr", "rotl", "fillone", "fillzero",                          -- 14..24
+  "il2x8", "il2x16", "il2x32", "il3x8", "il3x16", "il3x32", "il4x8", "il4x16", "deil16", "deil32", "deil64",                                   -- 25..35
+  "nlz", "sqrtu", "sqrts", "powu", "pows", "modu", "mods", "ceilmulf", "floormulf", "roundmulf",                                                -- 36..45
+  "vispow2"]                                                                                                                                    -- 46
+def opCode (s : String) : Option Nat :=
+  let base := (s.splitOn "@").head!
+  opNames.findIdx? (· == base)
+def opName (c : Nat) : String := opNames.getD c "?"
+
+def tyWidth (t : String) : Nat := match t with
+  | "i8" | "u8" => 8 | "i16" | "u16" => 16 | "i32" | "u32" | "f32" => 32 | _ => 64
+def tySigned (t : String) : Bool := t.startsWith "i"
+def cwOf (w : Nat) : Nat := if w < 32 then 32 else w
+def lgOf (w : Nat) : Nat := if w == 8 then 4 else if w == 16 then 5 else if w == 32 then 6 else 7
+
+@[inline] def bv (w : Nat) (x : UInt64) : BitVec w := BitVec.ofNat w x.toNat
+@[inline] def ob {w : Nat} (x : BitVec w) : UInt64 := x.toNat.toUInt64
+@[inline] def toI (w : Nat) (sg : Bool) (x : UInt64) : Int := if sg then (bv w x).toInt else (x.toNat : Int)
+
+/-! ## the model, by op code -/
+def modelG (op w : Nat) (sg : Bool) (a b c : UInt64) : UInt64 :=
+  let cw := cwOf w
+  let x := bv w a; let m := bv w b
+  let ib := bv 32 b; let ic := bv 32 c
+  match op with
+  | 0 => (if sg then isPowerOfTwoS w cw x else isPowerOfTwoU w cw x).toUInt64
+  | 1 | 2 => ob (if sg then ceilPowerOfTwoS w cw x else ceilPowerOfTwoU w x)
+  | 3 | 4 => ob (if sg then floorPowerOfTwoS w cw x else floorPowerOfTwoU w cw x)
+  | 5 => ob (if sg then roundPowerOfTwoS w cw x else roundPowerOfTwoU w cw x)
+  | 6 => ob (highestBitValue w x)
+  | 7 => ob (lowestBitValue w x)
+  | 8 => ob (if sg then powerOfTwoAboveS w cw x else powerOfTwoAboveU w cw x)
+  | 9 => ob (if sg then powerOfTwoBelowS w cw x else powerOfTwoBelowU w cw x)
+  | 10 => ob (if sg then powerOfTwoNearestS w cw x else powerOfTwoNearestU w cw x)
+  | 11 => ob (if sg then maskS w cw x else maskU w cw x)
+  | 12 => ob (if sg then log2S w x else log2U w x)
+  | 13 => ob (if sg then factorialS w x else factorialU w x)
+  | 14 | 15 => ob (if sg then ceilMultipleS w cw x m else ceilMultipleU w cw x m)
+  | 16 | 17 => ob (if sg then floorMultipleS w cw x m else floorMultipleU w cw x m)
+  | 18 => ob (if sg then roundMultipleS w cw x m else roundMultipleU w cw x m)
+  | 19 => (if sg then isMultipleS w cw x m else isMultipleU w cw x m).toUInt64
+  | 20 => ob (findNSB w (lgOf w) x ib)
+  | 21 => ob (if sg then bitfieldRotateRightS w cw x ib else bitfieldRotateRightU w cw x ib)
+  | 22 => ob (if sg then bitfieldRotateLeftS w cw x ib else bitfieldRotateLeftU w cw x ib)
+  | 23 => ob (if sg then bitfieldFillOneS w cw x ib ic else bitfieldFillOneU w cw x ib ic)
+  | 24 => ob (if sg then bitfieldFillZeroS w cw x ib ic else bitfieldFillZeroU w cw x ib ic)
+  | 46 => (if sg then isPowerOfTwoVS w cw x else isPowerOfTwoVU w x).toUInt64
+  | _ => 0
+
+/-- fixed-type ops: first result -/
+def modelF (op : Nat) (a b c d : UInt64) : UInt64 :=
+  match op with
+  | 25 => (interleave2x8 a.toUInt8 b.toUInt8).toUInt64
+  | 26 => (interleave2x16 a.toUInt16 b.toUInt16).toUInt64
+  | 27 => interleave2x32 a.toUInt32 b.toUInt32
+  | 28 => (interleave3x8 a.toUInt8 b.toUInt8 c.toUInt8).toUInt64
+  | 29 => interleave3x16 a.toUInt16 b.toUInt16 c.toUInt16
+  | 30 => interleave3x32 a.toUInt32 b.toUInt32 c.toUInt32
+  | 31 => (interleave4x8 a.toUInt8 b.toUInt8 c.toUInt8 d.toUInt8).toUInt64
+  | 32 => interleave4x16 a.toUInt16 b.toUInt16 c.toUInt16 d.toUInt16
+  | 33 => (deinterleave16x a.toUInt16).toUInt64
+  | 34 => (deinterleave32x a.toUInt32).toUInt64
+  | 35 => (deinterleave64x a).toUInt64
+  | 36 => ob (nlz (bv 32 a))
+  | 37 => ob (sqrtU (bv 32 a))
+  | 38 => ob (sqrtS (bv 32 a))
+  | 39 => ob (powU (bv 32 a) (bv 32 b))
+  | 40 => ob (powS (bv 32 a) (bv 32 b))
+  | 41 => ob (modU (bv 32 a) (bv 32 b))
+  | 42 => ob (modS (bv 32 a) (bv 32 b))
+  | _ => 0
+/-- second result (deinterleave) -/
+def modelF2 (op : Nat) (a : UInt64) : UInt64 :=
+  match op with
+  | 33 => (deinterleave16y a.toUInt16).toUInt64
+  | 34 => (deinterleave32y a.toUInt32).toUInt64
+  | 35 => (deinterleave64y a).toUInt64
+  | _ => 0
+def nResults (op : Nat) : Nat := if op == 33 || op == 34 || op == 35 then 2 else 1
+
+def modelFloat (op : Nat) (ty : String) (a b : UInt64) : UInt64 :=
+  if ty == "f32" then
+    let x := Float32.ofBits a.toUInt32; let m := Float32.ofBits b.toUInt32
+    let r := match op with | 43 => ceilMultipleF32 x m | 44 => floorMultipleF32 x m | _ => roundMultipleF32 x m
+    r.toBits.toUInt64
+  else
+    let x := Float.ofBits a; let m := Float.ofBits b
+    let r := match op with | 43 => ceilMultipleF64 x m | 44 => floorMultipleF64 x m | _ => roundMultipleF64 x m
+    r.toBits
+
+/-- packed operands of the block form of the fixed-type ops (diff/C18.cpp `unpack`) -/
+def unpack (op : Nat) (comb : UInt64) : UInt64 × UInt64 × UInt64 × UInt64 :=
+  match op with
+  | 25 => (comb &&& 0xff, (comb >>> 8) &&& 0xff, 0, 0)
+  | 28 => (comb &&& 0xff, (comb >>> 8) &&& 0xff, (comb >>> 16) &&& 0xff, 0)
+  | 31 => (comb &&& 0xff, (comb >>> 8) &&& 0xff, (comb >>> 16) &&& 0xff, (comb >>> 24) &&& 0xff)
+  | 26 => (comb &&& 0xffff, (comb >>> 16) &&& 0xffff, 0, 0)
+  | _ => (comb, 0, 0, 0)
+
+/-! ## the specification, by op code.  Verdict: 0 = holds, 1 = outside the documented domain / exact result not
+       representable (property silent), 2 = VIOLATED; with the input class of a violation -/
+structure Verdict where
+  code : Nat
+  cls : String := ""
+
+def ok : Verdict := ⟨0, ""⟩
+def na : Verdict := ⟨1, ""⟩
+def bad (cls : String := "unclassified") : Verdict := ⟨2, cls⟩
+def chk (b : Bool) : Verdict := if b then ok else bad
+
+/-- largest representable power of two, as an exponent bound: 2^k representable iff k < kmax -/
+def specG (op w : Nat) (sg : Bool) (a b c r : UInt64) : Verdict :=
+  let x := bv w a; let rv := bv w r
+  let X : Int := toI w sg a; let M : Int := toI w sg b; let R : Int := toI w sg r
+  let tmax : Int := if sg then (2 : Int) ^ (w - 1) - 1 else (2 : Int) ^ w - 1
+  let tmin : Int := if sg then -((2 : Int) ^ (w - 1)) else 0
+  let kmax := if sg then w - 1 else w          -- 2^k representable iff k < kmax
+  let pos := X > 0
+  match op with
+  | 0 | 46 => if !pos then na else chk ((r == 1) == Spec.isPow2 x kmax)
+  | 1 | 2 | 8 =>
+    if !pos then na else
+    let cp := Spec.ceilPow2 x w
+    if cp == 0 || (sg && cp == Spec.oneAt w (w - 1)) then na else chk (rv == cp)
+  | 3 | 4 | 9 => if !pos then na else chk (rv == Spec.floorPow2 x kmax)
+  | 5 | 10 =>
+    if !pos then na else
+    let f := (Spec.floorPow2 x kmax).toNat; let xn := x.toNat; let cn := 2 * f
+    if xn == f then chk (rv == x) else
+    let cRep := cn ≤ tmax.toNat
+    let fOk := xn - f ≤ cn - xn; let cOk := cn - xn ≤ xn - f
+    if (fOk && rv.toNat == f) || (cOk && cRep && rv.toNat == cn) then ok
+    else if fOk || (cOk && cRep) then bad else na
+  | 6 => if a == 0 then chk (r == 0) else chk (rv == Spec.floorPow2 x w)
+  | 7 => chk (rv == Spec.lowestSet x 0 w)
+  | 11 => if sg && X < 0 then na else chk (rv == Spec.mask w x.toNat w)
+  | 12 => if !pos then na else chk (R == Spec.highestBit x w)
+  | 13 =>
+    if X < 0 then na else
+    let f := Spec.fact X.toNat
+    if (f : Int) > tmax then na else chk (R == f)
+  | 14 | 15 =>
+    if M ≤ 0 then na else
+    if sg && w ≥ 32 && X == tmin then na else      -- `-Source` overflows (undefined)
+    if Spec.isCeilMultiple X M R then ok else
+    let A := X + (-X).emod M
+    if A > tmax then na else bad
+  | 16 | 17 =>
+    if M ≤ 0 then na else
+    if Spec.isFloorMultiple X M R then ok else
+    let F := X - X.emod M
+    if F < tmin then na else bad
+  | 18 =>
+    if M ≤ 0 then na else
+    if Spec.isRoundMultiple X M R then ok else
+    let F := X - X.emod M; let C := if F == X then X else F + M
+    -- documented domain of the theorem: the lower neighbour is representable, and so is the upper one unless the
+    -- lower one is strictly nearer
+    if F < tmin || (C > tmax && !(2 * (X - F) < M)) then na else bad
+  | 19 => if M ≤ 0 then na else chk ((r == 1) == (X.emod M == 0))
+  | 20 =>
+    let n := (bv 32 b).toInt
+    if n < 1 then na else chk ((bv 32 r).toInt == Spec.findNSB x n.toNat)
+  | 21 | 22 =>
+    let s := (bv 32 b).toInt
+    if s < 0 || s > w then na else
+    let right := Spec.rotr x s.toNat w; let left := Spec.rotl x s.toNat w
+    let want := if op == 21 then right else left
+    let other := if op == 21 then left else right
+    if rv == want then ok
+    else if rv == other then bad "opposite-direction"
+    else if sg && X < 0 then bad "signed-negative"
+    else bad
+  | 23 | 24 =>
+    let f := (bv 32 b).toInt; let n := (bv 32 c).toInt
+    if f < 0 || n < 0 || f + n > w || f ≥ w then na else
+    chk (rv == (if op == 23 then Spec.fillOne x f.toNat n.toNat else Spec.fillZero x f.toNat n.toNat))
+  | _ => na
+
+def specF (op : Nat) (a b c d r r2 : UInt64) : Verdict :=
+  match op with
+  | 25 => chk (r == Spec.interleave2 8 a b)
+  | 26 => chk (r == Spec.interleave2 16 a b)
+  | 27 => chk (r == Spec.interleave2 32 a b)
+  | 28 => chk (r == Spec.interleave3 8 a b c)
+  | 29 => chk (r == Spec.interleave3 16 a b c)
+  | 30 => chk (r == Spec.interleave3 32 a b c)
+  | 31 => chk (r == Spec.interleave4 8 a b c d)
+  | 32 => chk (r == Spec.interleave4 16 a b c d)
+  | 33 => chk (r == Spec.gather2 0 a 8 && r2 == Spec.gather2 1 a 8)
+  | 34 => chk (r == Spec.gather2 0 a 16 && r2 == Spec.gather2 1 a 16)
+  | 35 => chk (r == Spec.gather2 0 a 32 && r2 == Spec.gather2 1 a 32)
+  | 36 => chk ((r.toNat : Int) == Spec.nlz (bv 32 a))
+  | 37 => chk (Spec.isSqrt (a.toNat : Int) (r.toNat : Int))
+  | 38 => let X := (bv 32 a).toInt; if X < 0 then na else chk (Spec.isSqrt X (bv 32 r).toInt)
+  | 39 => chk ((r.toNat) == (a.toNat ^ b.toNat) % 4294967296)
+  | 40 =>
+    let X := (bv 32 a).toInt; let p := X ^ b.toNat
+    if p > 2147483647 || p < -2147483648 then na
+    else if (bv 32 r).toInt == p then ok
+    else if b == 0 && X < 0 then bad "y=0,x<0" else bad
+  | 41 => if b == 0 then na else chk (r.toNat == a.toNat % b.toNat)
+  | 42 =>
+    let X := (bv 32 a).toInt; let Y := (bv 32 b).toInt
+    if Y == 0 then na else
+    let t := X.tmod Y + Y
+    if t > 2147483647 || t < -2147483648 then na else chk ((bv 32 r).toInt == Spec.floorMod X Y)
+  | _ => na
+
+/-- float multiples (Multiple > 0, finite operands).  `rem = fmod(x, m)` is exact.  If x is an exact multiple the
+    result must be x itself (all three functions).  Otherwise, when x and m are small dyadic numbers (every
+    operation of the code is then exact) the result must be exactly the neighbouring multiple in the named
+    direction (round: the nearer one, either at a tie); in general (rounded arithmetic) only the bracket
+    x ≤ ceil ≤ fl(x+m), fl(x−m) ≤ floor ≤ x, fl(x−m) ≤ round ≤ fl(x+m) is required (rounding is monotone). -/
+def specFloat32 (op : Nat) (x m y : Float32) : Verdict :=
+  if x.isNaN || x.isInf || m.isNaN || m.isInf || !(m > 0) then na else
+  let rem := fmod32 x m
+  if rem == 0 then chk (y == x) else
+  let exact := x.abs < 65536 && m < 65536 && (x * 64).floor == x * 64 && (m * 64).floor == m * 64
+  let lo := if rem > 0 then x - rem else x - rem - m
+  let hi := lo + m
+  match op with
+  | 43 => if exact then chk (y == hi) else chk (x ≤ y && y ≤ x + m)
+  | 44 => if exact then chk (y == lo) else chk (x - m ≤ y && y ≤ x)
+  | _ => if exact then chk ((y == lo && x - lo ≤ hi - x) || (y == hi && hi - x ≤ x - lo)) else chk (x - m ≤ y && y ≤ x + m)
+def specFloat64 (op : Nat) (x m y : Float) : Verdict :=
+  if x.isNaN || x.isInf || m.isNaN || m.isInf || !(m > 0) then na else
+  let rem := fmod64 x m
+  if rem == 0 then chk (y == x) else
+  let exact := x.abs < 4294967296 && m < 4294967296 && (x * 1024).floor == x * 1024 && (m * 1024).floor == m * 1024
+  let lo := if rem > 0 then x - rem else x - rem - m
+  let hi := lo + m
+  match op with
+  | 43 => if exact then chk (y == hi) else chk (x ≤ y && y ≤ x + m)
+  | 44 => if exact then chk (y == lo) else chk (x - m ≤ y && y ≤ x)
+  | _ => if exact then chk ((y == lo && x - lo ≤ hi - x) || (y == hi && hi - x ≤ x - lo)) else chk (x - m ≤ y && y ≤ x + m)
+def specFloat (op : Nat) (ty : String) (a b r : UInt64) : Verdict :=
+  if ty == "f32" then specFloat32 op (Float32.ofBits a.toUInt32) (Float32.ofBits b.toUInt32) (Float32.ofBits r.toUInt32)
+  else specFloat64 op (Float.ofBits a) (Float.ofBits b) (Float.ofBits r)
+
+/-! ## statistics -/
+structure Stats where
+  evals : Nat := 0
+  nontrivial : Nat := 0
+  checked : Nat := 0
+  notApplicable : Nat := 0
+  specfail : Nat := 0
+  mismatches : Nat := 0
+  blocks : Nat := 0
+  lines : Nat := 0
+  msgs : Array String := #[]
+  classes : Array (String × String × Nat) := #[]      -- (op, class, count)
+  perOp : Array (Nat × Nat × Nat) := Array.replicate 47 (0, 0, 0)     -- evals, checked, na
+
+def Stats.addClass (s : Stats) (op cls : String) (n : Nat := 1) : Stats :=
+  match s.classes.findIdx? (fun e => e.1 == op && e.2.1 == cls) with
+  | some i => { s with classes := s.classes.modify i (fun e => (e.1, e.2.1, e.2.2 + n)) }
+  | none => { s with classes := s.classes.push (op, cls, n) }
+def Stats.classCount (s : Stats) (op cls : String) : Nat :=
+  match s.classes.find? (fun e => e.1 == op && e.2.1 == cls) with | some e => e.2.2 | none => 0
+
+def Stats.note (s : Stats) (op : Nat) (v : Verdict) (descr : Unit → String) : Stats :=
+  let s := { s with evals := s.evals + 1,
+                    perOp := s.perOp.modify op (fun e => (e.1 + 1, e.2.1 + (if v.code != 1 then 1 else 0), e.2.2 + (if v.code == 1 then 1 else 0))) }
+  match v.code with
+  | 0 => { s with checked := s.checked + 1 }
+  | 1 => { s with notApplicable := s.notApplicable + 1 }
+  | _ =>
+    let s := { s with checked := s.checked + 1, specfail := s.specfail + 1 }
+    let cnt := s.classCount (opName op) v.cls
+    let s := s.addClass (opName op) v.cls
+    if cnt < 4 then { s with msgs := s.msgs.push s!"SPECFAIL {descr ()} class={v.cls}" } else s
+
+def Stats.merge (a b : Stats) : Stats :=
+  let cl := b.classes.foldl (fun (acc : Stats) e => acc.addClass e.1 e.2.1 e.2.2) a
+  { evals := a.evals + b.evals, nontrivial := a.nontrivial + b.nontrivial, checked := a.checked + b.checked,
+    notApplicable := a.notApplicable + b.notApplicable, specfail := a.specfail + b.specfail,
+    mismatches := a.mismatches + b.mismatches, blocks := a.blocks + b.blocks, lines := a.lines + b.lines,
+    msgs := a.msgs ++ b.msgs, classes := cl.classes,
+    perOp := (a.perOp.zip b.perOp).map (fun (p, q) => (p.1 + q.1, p.2.1 + q.2.1, p.2.2 + q.2.2)) }
+
+/-- non-trivial: the result is neither zero nor (one of) the input(s) unchanged -/
+@[inline] def nontriv (a r : UInt64) : Bool := r != 0 && r != a
+
+/-! ## blocks and lines -/
+def evalBlock (fields : Array String) : Stats := Id.run do
+  let opS := fields[1]!; let ty := fields[2]!
+  let some op := opCode opS | return { msgs := #[s!"MISMATCH unknown op {opS}"], mismatches := 1 }
+  let p1 := fields[3]!.toNat!.toUInt64; let p2 := fields[4]!.toNat!.toUInt64
+  let lo := fields[5]!.toNat!; let count := fields[6]!.toNat!
+  let glmHash := fields[7]!.toNat!.toUInt64
+  let w := tyWidth ty; let sg := tySigned ty
+  let wm : UInt64 := if w == 64 then 0xFFFFFFFFFFFFFFFF else ((1 : UInt64) <<< w.toUInt64) - 1
+  let mut h := FNV0
+  let mut st : Stats := { blocks := 1 }
+  for i in [lo:lo+count] do
+    if op < 25 || op == 46 then
+      let a := i.toUInt64 &&& wm
+      let r := modelG op w sg a p1 p2
+      h := (h ^^^ r) * FNVP
+      let v := specG op w sg a p1 p2 r
+      st := st.note op v (fun _ => s!"{opS} {ty} {a} {p1} {p2} 0 -> {r}")
+      if nontriv a r then st := { st with nontrivial := st.nontrivial + 1 }
+    else
+      let (a, b, c, d) := unpack op ((p1 <<< 16) ||| i.toUInt64)
+      let r := modelF op a b c d
+      h := (h ^^^ r) * FNVP
+      let r2 := if nResults op == 2 then modelF2 op a else 0
+      if nResults op == 2 then h := (h ^^^ r2) * FNVP
+      let v := specF op a b c d r r2
+      st := st.note op v (fun _ => s!"{opS} {ty} {a} {b} {c} {d} -> {r} {r2}")
+      if nontriv a r then st := { st with nontrivial := st.nontrivial + 1 }
+  if h != glmHash then
+    st := { st with mismatches := st.mismatches + 1,
+                    msgs := st.msgs.push s!"MISMATCH B {opS} {ty} {p1} {p2} {lo} {count} model={h} glm={glmHash}" }
+  return st
+
+def evalLine (st : Stats) (ln : String) : Stats := Id.run do
+  let f := (ln.splitOn " ").toArray
+  if f.size < 9 then return { st with mismatches := st.mismatches + 1, msgs := st.msgs.push s!"MISMATCH malformed line {ln}" }
+  let opS := f[1]!; let ty := f[2]!
+  let some op := opCode opS | return { st with mismatches := st.mismatches + 1, msgs := st.msgs.push s!"MISMATCH unknown op {opS}" }
+  let a := f[3]!.toNat!.toUInt64; let b := f[4]!.toNat!.toUInt64; let c := f[5]!.toNat!.toUInt64; let d := f[6]!.toNat!.toUInt64
+  let g := f[8]!.toNat!.toUInt64
+  let g2 := if f.size > 9 then f[9]!.toNat!.toUInt64 else 0
+  let mut st := { st with lines := st.lines + 1 }
+  let (r, r2, v) :=
+    if op < 25 || op == 46 then
+      let w := tyWidth ty; let sg := tySigned ty
+      (modelG op w sg a b c, (0 : UInt64), specG op w sg a b c g)
+    else if op < 43 then
+      (modelF op a b c d, (if nResults op == 2 then modelF2 op a else 0), specF op a b c d g g2)
+    else
+      (modelFloat op ty a b, (0 : UInt64), specFloat op ty a b g)
+  if r != g || r2 != g2 then
+    st := { st with mismatches := st.mismatches + 1 }
+    if st.mismatches ≤ 40 then st := { st with msgs := st.msgs.push s!"MISMATCH {ln} model={r} {r2}" }
+  st := st.note op v (fun _ => ln)
+  if nontriv a g then st := { st with nontrivial := st.nontrivial + 1 }
+  return st
+
+def evalChunk (lines : Array String) : Stats :=
+  lines.foldl evalLine {}
+
+def check (path : String) : IO UInt32 := do
+  let text ← IO.FS.readFile path
+  let all := (text.splitOn "\n").toArray
+  let mut tasks : Array (Task Stats) := #[]
+  let mut chunk : Array String := #[]
+  for ln in all do
+    if ln.startsWith "B " then
+      let f := (ln.splitOn " ").toArray
+      if f.size ≥ 8 then tasks := tasks.push (Task.spawn fun _ => evalBlock f)
+    else if ln.startsWith "L " then
+      chunk := chunk.push ln
+      if chunk.size ≥ 4000 then
+        let ch := chunk
+        tasks := tasks.push (Task.spawn fun _ => evalChunk ch)
+        chunk := #[]
+  if chunk.size > 0 then
+    let ch := chunk
+    tasks := tasks.push (Task.spawn fun _ => evalChunk ch)
+  let mut tot : Stats := {}
+  for t in tasks do
+    tot := tot.merge t.get
+  -- at most 3 SPECFAIL examples per (op, class), at most 60 MISMATCH lines
+  let mut shownMis := 0
+  let mut seen : Array (String × Nat) := #[]
+  for m in tot.msgs do
+    if m.startsWith "SPECFAIL" then
+      let f := m.splitOn " "
+      let key := (f.getD 2 "") ++ "|" ++ (f.getLast?.getD "")
+      let n := match seen.find? (·.1 == key) with | some e => e.2 | none => 0
+      if n < 3 then IO.println m
+      seen := match seen.findIdx? (·.1 == key) with
+        | some i => seen.modify i (fun e => (e.1, e.2 + 1))
+        | none => seen.push (key, 1)
+    else
+      if shownMis < 60 then IO.println m
+      shownMis := shownMis + 1
+  for (op, cls, n) in tot.classes do IO.println s!"CLASS {op} {cls} {n}"
+  for i in [0:47] do
+    let e := tot.perOp[i]!
+    if e.1 > 0 then IO.println s!"OPSTAT {opName i} evals={e.1} checked={e.2.1} na={e.2.2}"
+  IO.println s!"SUMMARY lines={tot.lines} blocks={tot.blocks} evals={tot.evals} nontrivial={tot.nontrivial} mismatches={tot.mismatches} specchecked={tot.checked} specna={tot.notApplicable} specfail={tot.specfail}"
+  return 0
+
+end DrvC18
+
+def main (args : List String) : IO UInt32 := do
+  match args with
+  | ["check", path] => DrvC18.check path
+  | _ => IO.eprintln "usage: drv_c18 check <file>"; return 2
